@@ -16,7 +16,7 @@ Proof. unfold overlapb. rewrite (fam_eqb_sym (cf a) (cf b)). rewrite Bool.orb_co
 
 Definition quiet_op (o : op) : Prop :=
   match o with
-  | UDeleteNode _ | UMarkNodeDeleting _ | Construct _ _ _ => False
+  | UDeleteNode _ | UMarkNodeDeleting _ | Construct _ _ _ _ => False
   | UCreateNode _ _ cs => cs = []
   | UCreateCC obj => good_obj obj
   | _ => True
@@ -183,16 +183,28 @@ Proof.
     match goal with |- context [if ?b then _ else _] => destruct b end; fsplit I; assumption.
 Qed.
 
-Lemma apply_effects_finv fx : forall w nm cs, FInv w -> Forall wf_cidr cs ->
+Lemma apply_create_cc_nodes w o out : w_nodes (apply_create_cc w o out) = w_nodes w.
+Proof. exact (proj1 (apply_create_cc_frame w o out)). Qed.
+Lemma apply_create_cc_ctl w o out : w_ctl (apply_create_cc w o out) = w_ctl w.
+Proof. destruct (apply_create_cc_frame w o out) as (_ & _ & _ & H & _). exact H. Qed.
+
+Lemma apply_create_cc_finv w o out : FInv w -> good_obj o -> FInv (apply_create_cc w o out).
+Proof.
+  intros I Hg. pose proof (apply_create_cc_winv w o out (fi_w w I) Hg) as W'. unfold apply_create_cc in *.
+  destruct out; try exact I; (destruct (find_cc (o_name o) (w_ccs w)) as [cur|]; [exact I|]); fsplit I; assumption.
+Qed.
+
+Lemma apply_effects_finv fx : forall w nm cs, FInv w -> Forall wf_cidr cs -> fx_good fx ->
   (forall nm' cs' o, In (FxPatch nm' cs' o) fx -> nm' = nm /\ cs' = cs) ->
   (forall b, In b (w_nodes w) -> an_name b <> nm -> forall d, node_cidr b d -> forall x, In x cs -> overlapb x d = false) ->
   ((exists o, In (FxPatch nm cs o) fx /\ (o = POk \/ o = PTimeoutApplied)) -> forall m, w_ctl w = Some m -> forall x, In x cs -> Held m nm x) ->
   FInv (apply_effects w fx).
 Proof.
-  induction fx as [|e fx IH]; intros w nm cs I Hw Hsame Hav Hheld; [exact I|].
+  induction fx as [|e fx IH]; intros w nm cs I Hw Hg Hsame Hav Hheld; [exact I|].
+  pose proof (fx_good_tail _ _ Hg) as Hg'.
   destruct e; cbn [apply_effects].
   - destruct (Hsame _ _ _ (or_introl eq_refl)) as [-> ->].
-    apply (IH _ nm cs); [|exact Hw| | |].
+    apply (IH _ nm cs); [|exact Hw|exact Hg'| | |].
     + apply apply_patch_finv; [exact I|exact Hw|exact Hav|]. intros Ho. apply Hheld. exists o. split; [left; reflexivity|exact Ho].
     + intros nm' cs' o' Hin. apply (Hsame nm' cs' o'). right. exact Hin.
     + intros b Hb Hne. apply Hav; [|exact Hne]. eapply apply_patch_other_nodes; [exact (fi_names w I)|exact Hb|exact Hne].
@@ -201,12 +213,14 @@ Proof.
     intros (o' & Hin & Ho'). apply Hheld. exists o'. split; [right; exact Hin|exact Ho'].
   - apply (IH _ nm cs); try assumption. intros; eapply Hsame; right; eassumption.
     intros (o' & Hin & Ho'). apply Hheld. exists o'. split; [right; exact Hin|exact Ho'].
-  - apply (IH _ nm cs); [apply apply_update_cc_finv; exact I|exact Hw| | |].
+  - apply (IH _ nm cs); [apply apply_update_cc_finv; exact I|exact Hw|exact Hg'| | |].
     + intros; eapply Hsame; right; eassumption.
     + rewrite apply_update_cc_nodes. exact Hav.
     + intros (o'' & Hin & Ho') m Em. rewrite apply_update_cc_ctl in Em. apply Hheld; [|exact Em]. exists o''. split; [right; exact Hin|exact Ho'].
-  - apply (IH _ nm cs); try assumption. intros; eapply Hsame; right; eassumption.
-    intros (o'' & Hin & Ho'). apply Hheld. exists o''. split; [right; exact Hin|exact Ho'].
+  - apply (IH _ nm cs); [apply apply_create_cc_finv; [exact I|exact (fx_good_head _ _ _ Hg)]|exact Hw|exact Hg'| | |].
+    + intros; eapply Hsame; right; eassumption.
+    + rewrite apply_create_cc_nodes. exact Hav.
+    + intros (o'' & Hin & Ho') m Em. rewrite apply_create_cc_ctl in Em. apply Hheld; [|exact Em]. exists o''. split; [right; exact Hin|exact Ho'].
 Qed.
 
 Lemma patch_dec (fx : list effect) : (exists nm cs o, In (FxPatch nm cs o) fx) \/ (forall nm cs o, ~ In (FxPatch nm cs o) fx).
@@ -276,13 +290,14 @@ Section Hist.
     destruct (patch_dec fx) as [(nm & cs & o & Hin)|Hno].
     - apply (apply_effects_finv fx _ nm cs IA).
       + exact (sync_node_patches_wf po lab _ _ _ _ _ _ _ _ _ _ _ M Es nm cs o Hin).
+      + eapply sync_node_fx_good; exact Es.
       + intros nm' cs' o' Hin'. exact (sync_node_patches_same _ _ _ _ _ _ _ _ _ _ _ _ _ Es _ _ _ _ _ _ Hin' Hin).
       + rewrite Hnodes. intros b Hb Hne d Hd x Hx. eapply Havoid; [exact Hin| |exact Hx].
         eapply (fi_held w I m Em b d Hb Hd).
       + intros (o' & Hin' & Ho') m0 E0 x Hx. rewrite Hctl in E0. inversion E0; subst m0.
         eapply Hkept; [exact Hin'| |exact Hx].
         exact (sync_node_applied_is_kept _ _ _ _ _ _ _ _ _ _ _ _ _ M Es _ _ _ Hin' Ho').
-    - apply (apply_effects_finv fx _ key [] IA); [constructor| | |].
+    - apply (apply_effects_finv fx _ key [] IA); [constructor|eapply sync_node_fx_good; exact Es| | |].
       + intros nm' cs' o' Hin'. destruct (Hno _ _ _ Hin').
       + intros b _ _ d _ x [].
       + intros _ m0 _ x [].
@@ -303,7 +318,7 @@ Section Hist.
       all: pose proof (after_call_winv w (@Ok unit tt) m' (fi_w w I) M') as Wa; cbn [after_call] in Wa.
       all: fsplit I; try assumption; intros m0 E0 a0 c0 Ha Hc0; inversion E0; subst; apply Hmono; eapply Fhd; [exact Em|exact Ha|exact Hc0]. }
     assert (IB : forall w1, FInv w1 -> FInv (apply_effects w1 fx)).
-    { intros w1 I1. apply (apply_effects_finv fx w1 key [] I1); [constructor| | |].
+    { intros w1 I1. apply (apply_effects_finv fx w1 key [] I1); [constructor|eapply sync_cc_fx_good; eassumption| | |].
       - intros nm' cs' o' Hin'. destruct (Hnp _ _ _ Hin').
       - intros b _ _ d _ x [].
       - intros _ m0 _ x []. }
@@ -552,29 +567,30 @@ Section Hist.
     unfold run. cbn [fold_left]. apply IH; [apply step_bare; assumption|assumption].
   Qed.
 
-  Lemma apply_effects_cc_only fx : (forall nm cs o, ~ In (FxPatch nm cs o) fx) -> forall w, FInv w -> FInv (apply_effects w fx).
+  Lemma apply_effects_cc_only fx : (forall nm cs o, ~ In (FxPatch nm cs o) fx) -> fx_good fx -> forall w, FInv w -> FInv (apply_effects w fx).
   Proof.
-    intros Hnp w I. apply (apply_effects_finv fx w [] [] I); [constructor| | |].
+    intros Hnp Hg w I. apply (apply_effects_finv fx w [] [] I); [constructor|exact Hg| | |].
     - intros nm' cs' o' Hin'. destruct (Hnp _ _ _ Hin').
     - intros b _ _ d _ x [].
     - intros _ m0 _ x [].
   Qed.
 
-  Lemma construct_finv w s1 s2 outs :
-    FInv w -> bare w -> (forall s, s1 = Some s -> wf_cidr s) -> (forall s, s2 = Some s -> wf_cidr s) ->
-    FInv (fst (step po lab w (Construct s1 s2 outs))).
+  Lemma construct_finv w s1 s2 outs dp :
+    FInv w -> bare w -> (forall s, s1 = Some s -> wf_cidr s) -> (forall s, s2 = Some s -> wf_cidr s) -> wf_dp dp ->
+    FInv (fst (step po lab w (Construct s1 s2 outs dp))).
   Proof.
-    intros I [Hc Hn] H1 H2. pose proof (step_winv po lab w (Construct s1 s2 outs) (fi_w w I) (conj H1 H2)) as W'.
+    intros I [Hc Hn] H1 H2 Hdp. pose proof (step_winv po lab w (Construct s1 s2 outs dp) (fi_w w I) (conj H1 (conj H2 Hdp))) as W'.
+    assert (Hgood : Forall good_obj (with_default dp (w_ccs w))) by (apply with_default_good; [exact Hdp|exact (wi_ccs w (fi_w w I))]).
     cbn [step] in *. rewrite Hc in *.
-    destruct (construct po lab (w_ccs w) outs s1 s2 (map node_view (w_nodes w))) as [[m fx] pan] eqn:Ec. cbn [fst] in *.
+    destruct (construct po lab (with_default dp (w_ccs w)) outs s1 s2 (map node_view (w_nodes w))) as [[m fx] pan] eqn:Ec. cbn [fst] in *.
     assert (Hnp : forall nm cs o, ~ In (FxPatch nm cs o) fx).
-    { intros nm cs o Hin. unfold construct in Ec. destruct (bootstrap_ccs [] (w_ccs w) outs) as [m1 fx1] eqn:Eb.
+    { intros nm cs o Hin. unfold construct in Ec. destruct (bootstrap_ccs [] (with_default dp (w_ccs w)) outs) as [m1 fx1] eqn:Eb.
       match type of Ec with context [occupy_nodes po lab ?m3 ?ns] => destruct (occupy_nodes po lab m3 ns) as [m4 p4] end.
       inversion Ec; subst. pose proof (bootstrap_no_patch _ _ _ _ _ Eb _ Hin) as Hp. discriminate Hp. }
-    apply apply_effects_cc_only; [exact Hnp|].
+    apply apply_effects_cc_only; [exact Hnp|eapply construct_fx_good; eassumption|].
     assert (M : forall m0, (if pan then None else Some m) = Some m0 -> MapInv m0).
     { intros m0 E. destruct pan; [discriminate|]. inversion E; subst.
-      eapply construct_inv; [exact (wi_ccs w (fi_w w I))| |exact H1|exact H2|exact Ec].
+      eapply construct_inv; [exact Hgood| |exact H1|exact H2|exact Ec].
       rewrite Forall_forall. intros n Hin. apply in_map_iff in Hin. destruct Hin as (a & <- & Ha). apply wf_node_view. eapply in_anodes_wf; [exact (fi_w w I)|exact Ha]. }
     pose proof I as I0. fsplit I; try assumption.
     - pose proof (fi_w w I0) as Ww. destruct Ww as [a1 b1 c1 d1 e1 f1 g1 h1 i1 j1].
@@ -586,14 +602,14 @@ Section Hist.
   Qed.
 
   (* C01 over whole histories of one incarnation without node deletions *)
-  Theorem no_overlap_in_quiet_histories pre s1 s2 outs ops :
-    Forall user_op pre -> (forall s, s1 = Some s -> wf_cidr s) -> (forall s, s2 = Some s -> wf_cidr s) -> Forall quiet_op ops ->
-    let w := run po lab init_world (pre ++ Construct s1 s2 outs :: ops) in
+  Theorem no_overlap_in_quiet_histories pre s1 s2 outs dp ops :
+    Forall user_op pre -> (forall s, s1 = Some s -> wf_cidr s) -> (forall s, s2 = Some s -> wf_cidr s) -> wf_dp dp -> Forall quiet_op ops ->
+    let w := run po lab init_world (pre ++ Construct s1 s2 outs dp :: ops) in
     forall a b, In a (w_nodes w) -> In b (w_nodes w) -> an_name a <> an_name b ->
     forall c d, node_cidr a c -> node_cidr b d -> overlapb c d = false.
   Proof.
-    intros Hpre H1 H2 Hops w. apply fi_disj. subst w. unfold run. rewrite fold_left_app. cbn [fold_left].
-    apply run_finv; [|exact Hops]. apply construct_finv; [| |exact H1|exact H2].
+    intros Hpre H1 H2 Hdp Hops w. apply fi_disj. subst w. unfold run. rewrite fold_left_app. cbn [fold_left].
+    apply run_finv; [|exact Hops]. apply construct_finv; [| |exact H1|exact H2|exact Hdp].
     - apply run_finv; [|eapply Forall_impl; [exact user_quiet|exact Hpre]].
       apply finv_init.
     - apply run_bare; [split; [reflexivity|intros a []]|exact Hpre].
